@@ -11,14 +11,14 @@ open Dns Dns.C01
 /-- the types whose unpack body lies inside the algebra -/
 def coveredTypes : List String := (Gen.unpackCodecs.filter (fun p => GoodPlan p.2)).map (·.1)
 
-/-- 74 of the 81 generated bodies are covered; the others use SVCB / OPT / APL / gateway / name-list
-    primitives (checked by the wire-level generator on the implementation) -/
+/-- all 81 generated bodies are covered (EDNS0 options and SVCB parameters at the level of their (code, value octets)
+    framing; the value codecs of the individual options are checked on the implementation by the wire-level oracle) -/
 theorem covered_types :
-    coveredTypes = ["A", "AAAA", "AFSDB", "ANY", "AVC", "CAA", "CDNSKEY", "CDS", "CERT", "CNAME", "CSYNC", "DHCID", "DLV", "DNAME",
-      "DNSKEY", "DS", "EID", "EUI48", "EUI64", "GID", "GPOS", "HINFO", "ISDN", "KEY", "KX", "L32", "L64", "LOC", "LP", "MB",
+    coveredTypes = ["A", "AAAA", "AFSDB", "AMTRELAY", "ANY", "APL", "AVC", "CAA", "CDNSKEY", "CDS", "CERT", "CNAME", "CSYNC", "DHCID", "DLV", "DNAME",
+      "DNSKEY", "DS", "EID", "EUI48", "EUI64", "GID", "GPOS", "HINFO", "HIP", "HTTPS", "IPSECKEY", "ISDN", "KEY", "KX", "L32", "L64", "LOC", "LP", "MB",
       "MD", "MF", "MG", "MINFO", "MR", "MX", "NAPTR", "NID", "NIMLOC", "NINFO", "NS", "NSAPPTR", "NSEC", "NSEC3", "NSEC3PARAM", "NULL",
-      "NXNAME", "NXT", "OPENPGPKEY", "PTR", "PX", "RESINFO", "RFC3597", "RKEY", "RP", "RRSIG", "RT", "SIG", "SMIMEA", "SOA", "SPF",
-      "SRV", "SSHFP", "TA", "TALINK", "TKEY", "TLSA", "TSIG", "TXT", "UID", "UINFO", "URI", "X25", "ZONEMD"] := by
+      "NXNAME", "NXT", "OPENPGPKEY", "OPT", "PTR", "PX", "RESINFO", "RFC3597", "RKEY", "RP", "RRSIG", "RT", "SIG", "SMIMEA", "SOA", "SPF",
+      "SRV", "SSHFP", "SVCB", "TA", "TALINK", "TKEY", "TLSA", "TSIG", "TXT", "UID", "UINFO", "URI", "X25", "ZONEMD"] := by
   decide
 
 /-- for every covered type the generated `pack` body is exactly the pack side of its generated `unpack` body -/
@@ -37,6 +37,9 @@ theorem generated_bodies_inverse (t : String) (U : List CStep) (vals : List Val)
   have := hall (t, U) (List.mem_filter.mpr ⟨hmem, hg⟩)
   simp only [beq_iff_eq] at this
   obtain ⟨w, h1, h2⟩ := plan_roundtrip [] U vals hg hw
-  exact ⟨stripPlan U, w, this, h1, by simpa using h2⟩
+  exact ⟨stripPlan U, w, this, by simpa [packPlan] using h1, by simpa using h2⟩
+
+/-- nothing in the generated table is outside the algebra -/
+theorem all_covered : Gen.unpackCodecs.all (fun p => GoodPlan p.2) = true ∧ Gen.unpackCodecs.length = 81 := by decide
 
 end Dns.Instance
